@@ -185,9 +185,9 @@ def gen_history(rng, header, nops, malformed=0.2, stats=None):
             op = ("settle",) if family not in ("fleet", "slot", "cbelt") else ("ev",)
         line = impl.do(op)
         ops.append(op); lines.append(line)
-        if family == "cbelt" and op[0] == "put":
+        if family == "cbelt" and op[0] == "put" and rng.random() < 0.6:
             # SimPy processes URGENT events (the Initialize of the new move process, Interruptions) before any other
-            # process can run: no API call is interleaved there
+            # process can run; only the process that made the put can make further calls before them (40 % of the puts)
             n = 0
             while impl.urgent_pending() and n < 50:
                 ops.append(("ev",)); lines.append(impl.do(("ev",))); n += 1
